@@ -39,6 +39,7 @@ func init() {
 		Methods: []*py.Method{
 			py.MustNewMethod("log", hostLog, 0, "log(*values): append canonical renderings to the trace"),
 			py.MustNewMethod("exc_name", hostExcName, 0, "exc_name(e): class name of an exception instance"),
+			py.MustNewMethod("exc_loc", hostExcLoc, 0, "exc_loc(e): (filename, lineno) an exception instance carries, as an embedder reads them"),
 			py.MustNewMethod("tick", hostTick, 0, "tick(i): side effect marker"),
 			py.MustNewMethod("tk", hostTk, 0, "tk(i, v): side effect marker i, returns v"),
 			py.MustNewMethod("echo", hostEcho, 0, "echo(v): reference-side stand-in for the interactive echo of a nested expression statement"),
@@ -138,6 +139,23 @@ func hostExcName(self py.Object, args py.Tuple) (py.Object, error) {
 		return py.String("class:" + e.Name), nil
 	}
 	return py.String("notexc:" + args[0].Type().Name), nil
+}
+
+func hostExcLoc(self py.Object, args py.Tuple) (py.Object, error) {
+	if len(args) != 1 {
+		return nil, py.ExceptionNewf(py.TypeError, "exc_loc takes one argument")
+	}
+	e, ok := args[0].(*py.Exception)
+	if !ok || e.Dict == nil {
+		return py.Tuple{py.None, py.None}, nil
+	}
+	get := func(k string) py.Object {
+		if v, ok := e.Dict[k]; ok {
+			return v
+		}
+		return py.None
+	}
+	return py.Tuple{get("filename"), get("lineno")}, nil
 }
 
 // normExc folds exception subclasses whose distinction no claimed property
